@@ -46,6 +46,7 @@ theorem cfg_is_spec : cfg = Cfg.spec := by
   case fullCopyLo => funext n; simp only [cfg, Cfg.spec, Facts.C16.fullCopyLo]
   case abrMark => decide
   case fullEnvelope => decide
+  case fullSeqAfterCheck => decide
   case padEnvelope => decide
   case tagAbridged => decide
   case tagIntermediate => decide
@@ -110,6 +111,61 @@ theorem stream_roundtrip (crc : Bytes → Nat) (hcrc : ∀ x, crc x < 2 ^ 32) (k
     exact ⟨by omega, by omega, fun _ => h4, by omega⟩
   have hlen := encAll_length_ge Cfg.spec crc k ps seq rnd (fun p hp => (hv p hp).1)
   exact decAll_encAll crc k hcrc ps seq rnd _ hv (fun i => by rw [hrnd i]; omega) hlo hhi (by omega)
+
+/-- **A failed write changes nothing.**  A `Write` that is rejected (empty payload, payload over the
+limit, unaligned payload) puts nothing on the wire and leaves the codec's counter where it was
+(tie: `Full.Write` takes its sequence number only after the checks — statement-order fact
+`fullSeqAfterCheck`, interpreted by `writeOp`). -/
+theorem rejected_write_keeps_state (crc : Bytes → Nat) (k : Kind) (wSeq : Int) (rnd p : Bytes)
+    (h : accepts cfg k p = false) :
+    (writeOp cfg crc k wSeq rnd p).2 = wSeq ∧ sessionWire [(writeOp cfg crc k wSeq rnd p).1] = [] := by
+  rw [cfg_is_spec] at h ⊢; exact writeOp_rejected crc k wSeq rnd p h
+
+/-- **Sessions.**  Any sequence of `Write` calls on one codec object, valid payloads mixed with
+rejected ones in any order: the receiver reading what reached the wire gets exactly the accepted
+payloads, in order, and the stream is used up — the rejected calls leave no gap in the numbering. -/
+theorem session_delivers_accepted (crc : Bytes → Nat) (hcrc : ∀ x, crc x < 2 ^ 32) (k : Kind) (seq : Int)
+    (ops : List (Bytes × Bytes)) (hrnd : ∀ o ∈ ops, o.1.length = 4)
+    (hvalid : ∀ o ∈ ops, accepts cfg k o.2 = true → Valid o.2)
+    (hlo : -2 ^ 31 ≤ seq) (hhi : seq + ops.length ≤ 2 ^ 31) :
+    let wire := sessionWire (writeSession cfg crc k seq ops).1
+    decAll cfg crc k (wire.length + 1) seq wire
+      = (((ops.filter fun o => accepts cfg k o.2).map (·.2)).map .frame, none) := by
+  rw [cfg_is_spec]
+  rw [cfg_is_spec] at hvalid
+  simp only
+  let acc := ops.filter fun o => accepts Cfg.spec k o.2
+  have hacc : ∀ o ∈ acc, accepts Cfg.spec k o.2 = true := fun o ho => (List.mem_filter.mp ho).2
+  rw [(session_filter crc k ops seq).1, (session_all_accepted crc k acc seq hacc).1]
+  have hlen : acc.length ≤ ops.length := List.length_filter_le _ _
+  have hv : ∀ p ∈ acc.map (·.2), 0 < p.length ∧ p.length ≤ 16777216 ∧ (k ≠ .full → p.length % 4 = 0) ∧ p.length ≠ 4 := by
+    intro p hp
+    obtain ⟨o, ho, rfl⟩ := List.mem_map.mp hp
+    obtain ⟨h8, hmax, h4⟩ := hvalid o (List.mem_filter.mp ho).1 (hacc o ho)
+    have hmax' : o.2.length ≤ 16777216 := hmax
+    exact ⟨by omega, hmax', fun _ => h4, by omega⟩
+  have hlenw := encAll_length_ge Cfg.spec crc k (acc.map (·.2)) seq (fun i => (acc.getD i ([], [])).1)
+    (fun p hp => (hv p hp).1)
+  -- random bytes: every accepted op carries four; indices past the end are never used
+  have hdec := decAll_encAll crc k hcrc (acc.map (·.2)) seq (fun i => if i < acc.length then (acc.getD i ([], [])).1 else [0, 0, 0])
+    ((encAll Cfg.spec crc k seq (fun i => (acc.getD i ([], [])).1) (acc.map (·.2))).length + 1) hv
+    (by
+      intro i
+      by_cases hi : i < acc.length
+      · simp only [hi, if_true]
+        have hm : acc.getD i ([], []) ∈ acc := by
+          rw [List.getD_eq_getElem?_getD, List.getElem?_eq_getElem hi]; exact List.getElem_mem _
+        rw [hrnd _ (List.mem_filter.mp hm).1]; omega
+      · simp [hi])
+    hlo (by simp only [List.length_map]; omega) (by simp only [List.length_map] at hlenw ⊢; omega)
+  have hsame : encAll Cfg.spec crc k seq (fun i => if i < acc.length then (acc.getD i ([], [])).1 else [0, 0, 0]) (acc.map (·.2))
+      = encAll Cfg.spec crc k seq (fun i => (acc.getD i ([], [])).1) (acc.map (·.2)) := by
+    apply encAll_rnd_congr
+    intro i hi
+    simp only [List.length_map] at hi
+    simp [hi]
+  rw [hsame] at hdec
+  exact hdec
 
 /-- **Four-byte frames are transport error codes** (`-code` as an int32), for every protocol. -/
 theorem four_bytes_is_error_code (crc : Bytes → Nat) (hcrc : ∀ x, crc x < 2 ^ 32) (k : Kind) (seq : Int)
